@@ -317,7 +317,7 @@ def g_stream_encode(rng, n, ctx):
     for _ in range(n):
         samples = []
         for _ in range(rng.randrange(0, 4)):
-            t = rng.choice([1, 2, 3, 4, 5, 6, 7, 8, 9, 12, 13, 14, 15, 16, 17, 18])
+            t = rng.choice([1, 2, 3, 4, 5, 6, 7, 8, 9, 12, 13, 14, 15, 16, 17, 18, 10, 11])
             vdim = rng.randrange(0, 4)
             mlen = rng.choice([0, 0, 1, 2, 4, 8, 3])
             if t in rng_int:
@@ -326,6 +326,12 @@ def g_stream_encode(rng, n, ctx):
             elif t in fixed:
                 kbits, lo, hi = fixed[t]
                 data = tuple(rng.choice([lo, hi, rng.randint(lo, hi)]) / 2 ** kbits for _ in range(vdim))
+            elif t in (10, 11):
+                # FLOAT / DOUBLE: floats (any finite double; 'f' rounds to single) and, as the simulated
+                # device's counters do, plain integers
+                data = tuple(rng.choice([0.5, 1.0, -2.75, 1e-3, 3.141592653589793, 1e10, -1e-30, 5e-324, 1.5e38,
+                                         rng.randrange(-1000, 1000) / 8, rng.randrange(-1000, 1000),
+                                         (1 << 60) + (1 << 36) + 1, rng.random()]) for _ in range(vdim))
             elif t == 18:
                 data = ("".join(rng.choice("abcż ") for _ in range(vdim)),)
             else:
